@@ -203,7 +203,7 @@ type c04Case struct {
 }
 
 var c04Kinds = []string{"lookup", "lookup", "create", "create", "mkdir", "symlink", "remove", "rmdir", "rename", "readdir", "readdirplus", "readdirplus", "getattr", "getattr", "readlink",
-	"setattr", "setattr", "setattr", "write", "read", "access", "mntattr"}
+	"setattr", "setattr", "setattr", "write", "read", "access", "mntattr", "roundtrip"}
 
 var c04Modes = []uint32{0, 0644, 0755, 0600, 0777, 04755, 02755, 01777, 07777, 040755, 020644, 010644, 0x4000 | 0700, 0x08000000, 0x08000000 | 0644, 0x80000000 | 0755, 0x00800000 | 0644, 0xFFFF7FFF, 0x7FFFFFFF, 1 << 9, 1 << 12}
 
